@@ -6,6 +6,9 @@
 package main
 
 import (
+	"strconv"
+	"runtime"
+	"regexp"
 	"database/sql"
 	"database/sql/driver"
 	"errors"
@@ -226,6 +229,8 @@ func (w *vWorld) regate() (prim, cache *vGate) {
 
 type vSched struct {
 	mu      sync.Mutex
+	gids    map[int64]int // goroutine id of a request -> request
+	async   int           // storage operations that came from goroutines a handler left behind (not scheduled)
 	current int
 	held    map[int]chan struct{}
 	events  chan vSchedEv
@@ -242,6 +247,35 @@ func vIsSyncPoint(op string) bool {
 	return strings.HasPrefix(op, "prepare:select profile_data") || strings.HasPrefix(op, "close:select profile_data") || op == "begin"
 }
 
+var vGoidRe = regexp.MustCompile(`^goroutine (\d+) `)
+var vParentRe = regexp.MustCompile(`created by (\S+) in goroutine (\d+)`)
+
+// vWhoAmI: the id of the calling goroutine, the function that created it and the goroutine that did
+func vWhoAmI() (gid int64, creator string, parent int64) {
+	buf := make([]byte, 16384)
+	st := buf[:runtime.Stack(buf, false)]
+	if m := vGoidRe.FindSubmatch(st); m != nil {
+		gid, _ = strconv.ParseInt(string(m[1]), 10, 64)
+	}
+	if all := vParentRe.FindAllSubmatch(st, -1); len(all) > 0 {
+		m := all[len(all)-1]
+		creator = string(m[1])
+		parent, _ = strconv.ParseInt(string(m[2]), 10, 64)
+	}
+	return
+}
+
+// register: the calling goroutine serves request id
+func (s *vSched) register(id int) {
+	gid, _, _ := vWhoAmI()
+	s.mu.Lock()
+	if s.gids == nil {
+		s.gids = map[int64]int{}
+	}
+	s.gids[gid] = id
+	s.mu.Unlock()
+}
+
 func (s *vSched) arrive(db, op string) {
 	if !vIsSyncPoint(op) {
 		return
@@ -251,7 +285,19 @@ func (s *vSched) arrive(db, op string) {
 		s.mu.Unlock()
 		return
 	}
+	// whose storage operation is this?  The request's own goroutine, or the goroutine LoadUserProfile reads in; anything
+	// else is work a handler left behind when it answered (e.g. "go SaveUserProfile"): it is not scheduled, it happens
 	id := s.current
+	gid, creator, parent := vWhoAmI()
+	if rid, ok := s.gids[gid]; ok {
+		id = rid
+	} else if rid, ok := s.gids[parent]; ok && strings.Contains(creator, "LoadUserProfile") {
+		id = rid
+	} else if len(s.gids) > 0 {
+		s.async++
+		s.mu.Unlock()
+		return
+	}
 	ch := make(chan struct{})
 	s.held[id] = ch
 	s.mu.Unlock()
